@@ -42,6 +42,18 @@ def main():
 
     print(f'selftest ok: conformance {n} cases, E1 replay deterministic ({r1.nsteps} steps)')
 
+    # pipeline-level comparison of real ZeroMQ runs with the model's outcome: informative only (real timing must not decide anything)
+    if not os.environ.get('VERIF_SKIP_REAL_PIPELINES'):
+        import subprocess
+
+        try:
+            r = subprocess.run([sys.executable, '-m', 'conformance.real_pipeline'], cwd=here, stdout=subprocess.PIPE, stderr=subprocess.STDOUT,
+                               text=True, timeout=400)
+            last = [l for l in r.stdout.splitlines() if l.startswith('real pipelines')]
+            print(('note: ' if r.returncode else '') + (last[-1] if last else 'real pipelines: no result'))
+        except Exception as exc:  # noqa
+            print(f'note: real pipeline comparison not completed ({type(exc).__name__})')
+
 
 if __name__ == '__main__':
     main()
